@@ -96,9 +96,9 @@ typedef void (*vd_partial_cb)(decoder_t *d, void *user, long samples_fed, long f
 int vd_run(decoder_t *d, const vd_audio *a, vh_rng *r, const vd_pattern *p, vd_partial_cb cb, void *user, vd_runinfo *info);
 
 /* ---------- result records ---------- */
-typedef struct vd_seg { char word[96]; int sf, ef; int32 ascr, lscr, prob; } vd_seg;
+typedef struct vd_seg { char word[400]; int sf, ef; int32 ascr, lscr, prob; } vd_seg;
 typedef struct vd_result {
-    int has_hyp; char hyp[1024]; int32 score;
+    int has_hyp; char hyp[4096]; int32 score;
     int nseg; vd_seg *seg;
     int n_frames;
 } vd_result;
